@@ -111,9 +111,16 @@ def _record(job):
                 d.db.insert_multiple([th.point(tf, ap) for ap in opts["prefill_points"]])
             init = d.contents()
             valid0 = d.valid()
+            last_write = None
             for a in ops:
+                if a["op"] == "__repeat__":
+                    if last_write is None:
+                        continue
+                    a = last_write                 # the previous remove / update exactly as it was resolved
                 if "adapt" in a:
                     a = adapt_op(a, events[-1]["store"] if events else init)
+                if a["op"] in ("remove", "drop_measurement", "update"):
+                    last_write = a
                 if rec is not None:
                     rec.events = []
                     before = rec.db_bytes()
